@@ -271,20 +271,32 @@ def allowed_values(o, pat, path, mm, parts):
     raise ValueError(c)
 
 
-def any_values(o, pat, path=()):
-    """(path, element identities) of every collection an existential constraint looks at below o; the listed finding
-    de-duplicates answers by the value of that collection"""
-    out = set()
+def any_entries(o, pat, path=(), chain=()):
+    """(path, value of the collection, identities of the objects from the root element down to the holder) for every
+    collection an existential constraint looks at below o; the listed finding de-duplicates answers by the value of
+    that collection, whoever holds it"""
+    out = []
+    chain = chain + (id(o),)
     for a, c in pat["attrs"].items():
         v = getattr(o, a, None)
         if c[0] in ("any", "select_any", "anymatch") and isinstance(v, list):
-            out.add((path + (a,), tuple(id(x) for x in v)))
+            out.append((path + (a,), tuple(id(x) for x in v), chain))
         if c[0] == "anylit" and isinstance(v, list):
-            out.add((path + (a,), tuple(v)))          # value-equal lists of strings collapse as well
+            out.append((path + (a,), tuple(v), chain))          # value-equal lists of strings collapse as well
         if c[0] in ("match", "select", "anymatch") and v is not None:
             for x in (v if isinstance(v, list) else [v]):
-                out |= any_values(x, c[1], path + (a,))
+                out.extend(any_entries(x, c[1], path + (a,), chain))
     return out
+
+
+def has_twin(obj_id, entries):
+    """some existential collection held by (or below) the object has the same value as one held by another object"""
+    for path, val, chain in entries:
+        if obj_id in chain:
+            # another holder with an equal collection, or the same holder reached through another element
+            if any(p2 == path and v2 == val and c2 != chain for p2, v2, c2 in entries):
+                return True
+    return False
 
 
 def skeleton(pat):
@@ -377,22 +389,24 @@ def run(spec, ctx):
     for o in exp:
         if id(o) not in supported:
             missing_problems.append(o)
-    lost_parts = []
+    lost_parts, lost_ids = [], []
     for i, (path, sel) in enumerate(selects):
         must = set()
         for o in exp:
             if id(o) in supported:
                 must |= allowed[id(o)][i][1]
         if not must <= reported[i]:
+            lost_ids.extend(sorted(must - reported[i]))
             lost_parts.append(f"matching parts {[idn.get(x, '?') for x in sorted(must - reported[i])][:3]} of the select on {'.'.join(path)} are not reported")
     if len({id(r) for r in rows}) != len(rows) and not selects:
         C["duplicate_results"] += 1
     if extra_problems or missing_problems or lost_parts:
         key = None
-        if not extra_problems and not lost_parts:
-            # the twin need not satisfy the rest of the pattern: the existential condition de-duplicates on its own
-            av = {id(o): any_values(o, pat) for o in dom}
-            if all(any(av[id(o)] & av[id(o2)] for o2 in dom if o2 is not o) for o in missing_problems):
+        if not extra_problems:
+            # the twin need not satisfy the rest of the pattern (the existential condition de-duplicates on its own) and
+            # may be held by the same element (two boxes of one shelf with equal part lists)
+            entries = [e for o in dom if isinstance(o, root_T) for e in any_entries(o, pat)]
+            if all(has_twin(id(o), entries) for o in missing_problems) and all(has_twin(i, entries) for i in lost_ids):
                 key = "match-any-collapses-equal-collections"
         C["fail:" + (key or "UNEXPLAINED")] += 1
         detail = extra_problems[:2] + [f"missing elements {[idn.get(id(o), '?') for o in missing_problems][:4]}"] * bool(missing_problems) + lost_parts[:2]
